@@ -1384,7 +1384,7 @@ def ensure_vineserial(ctx):
     return r.returncode == 0
 
 
-def run(ctx):
+def _run(ctx):
     quick = ctx.tier == 'quick'
     F, problems = S.serial_facts()
     bad = dict(problems)
@@ -1475,3 +1475,16 @@ def run(ctx):
     ctx.assumptions += ['scipy distribution methods are deterministic functions of (input, parameters): equal behaviour selectors give equal outputs',
                         'statistical clause: none - C14 is fully deterministic; "sample stream identical" is checked under an equal seed set on both objects '
                         '(to_dict does not carry the random state by design: C14_roundtrip_drops_random_state; pickle does)']
+
+
+def run(ctx):
+    """the check proper, then the constant-data round-trip oracle (always)"""
+    from .. import extra_oracles
+    try:
+        _run(ctx)
+    finally:
+        try:
+            extra_oracles.constant_roundtrip(ctx)
+        except Exception as ex:
+            ctx.obligation('oracle:extra:raised', False, 'correspondence', repr(ex))
+            ctx.violation('oracle:extra:raised:' + type(ex).__name__, 'constant round-trip oracle raised ' + repr(ex), {'repro': '# see tools/vf/extra_oracles.py'})
